@@ -33,7 +33,8 @@ CONSTANTS MaxOps,      \* program length
           Skip         \* BOOLEAN: error skipping enabled (C12)
 
 \* ------------------------------------------------------------------ data
-Rec(a, b, x) == Dict(<<"a", "b", "n">>, <<Leaf(a), Leaf(b), Dict(<<"x">>, <<Leaf(x)>>)>>)
+\* "t" holds a 1-tuple: a value that is itself a tuple must travel as ONE value
+Rec(a, b, x) == Dict(<<"a", "b", "n", "t">>, <<Leaf(a), Leaf(b), Dict(<<"x">>, <<Leaf(x)>>), Tuple(<<Leaf(a)>>)>>)
 R1 == Rec(1, 2, 5)
 R2 == Rec(4, 3, 6)
 R3 == Rec(3, 3, 1)
@@ -241,6 +242,7 @@ Keys == {
   Select(<<IP(<<PIdx(0)>>)>>, <<OP(C)>>), Select(<<IP(<<PIdx(1)>>), IP(<<PIdx(0)>>)>>, <<OP(C), OP(D)>>),
   Apply("inc", <<IP(<<PIdx(1)>>)>>, <<OP(SELF)>>), Filter("odd", <<IP(<<PIdx(0)>>)>>),
   Assign(<<OP(<<PKey("l"), PIdx(0)>>)>>, "inc", <<IP(A)>>), Apply("swap", <<IP(A), IP(B)>>, <<OP(<<PIdx(0)>>), OP(<<PIdx(1)>>)>>),
+  Select(<<IP(K("t"))>>, <<OP(C)>>), Select(<<IP(A), IP(K("t"))>>, <<OP(D), OP(C)>>),      \* (a FUNCTION returning a tuple means several outputs: not used on t)
   Select(<<IP(<<PKey("l"), PIdx(0)>>)>>, <<OP(C)>>), Select(<<IP(A)>>, <<OP(<<PIdx(0)>>)>>), Assign(<<OP(<<PIdx(0)>>)>>, "inc", <<IP(<<PIdx(1)>>)>>) }
 Fail == {
   Apply("failodd", <<IP(A)>>, <<OP(C)>>), Assign(<<OP(C)>>, "failodd", <<IP(A)>>), Assign(<<OP(D)>>, "fail3", <<IP(B)>>),
